@@ -117,6 +117,10 @@ type serverConn struct {
 	maxIdleTimer    *time.Timer
 
 	closer chan struct{}
+	// closerClosed guards closer. The idle timer is re-armed by every HEADERS
+	// frame the stream loop handles, including one it picks up after the timer
+	// has already fired, so closeIdleConn can run more than once.
+	closerClosed int32
 
 	debug  bool
 	logger fasthttp.Logger
@@ -127,7 +131,9 @@ func (sc *serverConn) closeIdleConn() {
 	if sc.debug {
 		sc.logger.Printf("Connection is idle. Closing\n")
 	}
-	close(sc.closer)
+	if atomic.CompareAndSwapInt32(&sc.closerClosed, 0, 1) {
+		close(sc.closer)
+	}
 }
 
 func (sc *serverConn) Handshake() error {
